@@ -85,6 +85,21 @@ CLAIMED = {
         note=CORR + "Partial: aliasing, package-level caches and data races are facts about the Go heap that an immutable functional "
              "model cannot express; they are sampled under -race.", design="5/C15",
         technique="Coq proof (state independence of the model) + race-detector differential runs"),
+    "C04": dict(
+        text="Theorem C04_roundtrip (axiom-free): for EVERY well-formed abstract MSM message (14 types, satellite/signal/cell "
+             "masks of at most 64 cells incl. empty, every in-range field value incl. the invalid markers, flag as the property "
+             "allows) and every number of zero padding bytes, the modelled decoder (header.GetMSMHeader, satellite/signal cell "
+             "readers with every length guard, GetNumberOfSignalCells fallback, cell attachment loop) applied to the frame the "
+             "specification encoder wrote returns exactly the decoded view: all header fields, tables implied by the masks, every "
+             "satellite and signal cell with the right satellite and signal id; the statement's right-hand side is independent "
+             "of the padding and no well-formed message is rejected. C04_frame_valid: the frame is a valid RTCM3 frame up to "
+             "1023 payload bytes. Field widths and positions come from constants regenerated from the Go source on every run "
+             "(GenConsts.v). Correspondence: the extracted decoder and the real decoders (direct and through "
+             "handler.GetMessage) on frames produced by the extracted encoder over mask shapes, extreme values, padding "
+             "sweeps; both compared with the extracted view.",
+        note=CORR + "Found and fixed: the signal-cell count was inferred from trailing bits, so zero cells and padding changed "
+             "the result (known_findings.txt).", design="5/C04",
+        technique="Coq proof (bit-level round trip by induction over field arrays and masks) + extracted-model correspondence"),
     "C09": dict(
         text="Theorems C09_every_schedule / C09_final_configuration / C09_frames (axiom-free) over the network reader -> framer -> "
              "fan-out -> k consumers of Pipe.v under the interleaving semantics of Net.v (bounded FIFO channels, blocking send "
